@@ -283,3 +283,99 @@ def c03_index(case, impl_case):
         if not near(pr[t] * base, pr[t - 1] * val[t], pr[t - 1] * val[t]):
             fails.append("date %d: price %r x (%r + %r) != %r x %r" % (t, pr[t], val[t - 1], fl[t], pr[t - 1], val[t]))
     return fails
+
+
+# ---------------------------------------------------------------- C16
+def c16_bankruptcy(case, impl_case):
+    """finished market-value backtest: flagged iff a recorded root value is negative; from that date on every
+    security in the tree is flat, value and cash are constant, no stack runs; sub-strategies are never flagged"""
+    fails = []
+    state = impl_case["steps"][-1]["state"]
+    root, nodes, _ = build_tree(state)
+    if root is None or root.f["flags"][2] == "T":
+        return fails
+    vals, cash = root.vals("hg_values"), root.vals("hg_cash")
+    neg = [t for t, v in enumerate(vals) if v < -1e-9]
+    flagged = root.s["bankrupt"] == "T"
+    if flagged != bool(neg):
+        fails.append("bankrupt flag %s but recorded values negative on rows %s" % (flagged, neg[:3]))
+    for n in walk(root):
+        if n is not root and n.kind == "G" and n.s["bankrupt"] == "T":
+            fails.append("%s: a sub-strategy is flagged bankrupt" % n.path)
+    if flagged and neg:
+        t0 = neg[0] if False else None
+    if flagged:
+        # the date of the flag: first row from which the positions are all flat is at most the first negative row;
+        # liquidation happens inside that date's update, so the recorded value of that date is post-liquidation
+        first = None
+        for t in range(len(vals)):
+            if vals[t] < -1e-9:
+                first = t
+                break
+        if first is not None:
+            for n in walk(root):
+                if n.kind == "S" and n.f.get("priced", ["T"])[0] == "T":
+                    pos = n.vals("h_positions")
+                    prc_zero = False
+                    hv = n.vals("h_values")
+                    for t in range(first, len(pos)):
+                        if abs(pos[t]) > 1e-9:
+                            nested = n.path.count(".") >= 2
+                            tag = "[K13 nested] " if nested else ("[K5 zero value] " if abs(hv[t]) < 1e-12 else "")
+                            fails.append("%s%s: position %r still open on row %d after bankruptcy on row %d" % (tag, n.path, pos[t], t, first))
+                            break
+            for t in range(first + 1, len(vals)):
+                if not near(vals[t], vals[first], vals[first]) or not near(cash[t], cash[first], cash[first]):
+                    if any(f.startswith("[K13") or f.startswith("[K5") for f in fails):
+                        break          # a consequence of the positions left open
+                    fails.append("value/cash not constant after bankruptcy: row %d value %r cash %r vs row %d value %r cash %r"
+                                 % (t, vals[t], cash[t], first, vals[first], cash[first]))
+                    break
+            tr = [k for k in root.f if k.startswith("trace.") and k.endswith(".res")]
+            for k in tr:
+                now = root.f[k][0]
+                if now != "-" and int(now) > first:
+                    fails.append("the stack ran on row %s after bankruptcy on row %d" % (now, first))
+                    break
+    return fails
+
+
+# ---------------------------------------------------------------- C17
+def c17_fixed_income(case, impl_case):
+    """finished fixed-income backtest: notional rows per security class, strategy notional = sum |child|,
+    additive index, Rebalance targets as fractions of the SetNotional base"""
+    fails = []
+    state = impl_case["steps"][-1]["state"]
+    root, nodes, _ = build_tree(state)
+    if root is None or root.f["flags"][2] != "T":
+        return fails
+    specs = spec_index(case["tree"])
+    for n in walk(root):
+        if n.kind == "S" and n.f.get("priced", ["T"])[0] == "T":
+            sp = specs.get(strip_paper(n.path))
+            cls = sp[2] if sp else "sec"
+            notl, pos, val = n.vals("h_notls"), n.vals("h_positions"), n.vals("h_values")
+            for t in range(len(notl)):
+                want = {"sec": val[t], "fi": pos[t], "coupon": pos[t], "hedge": 0.0, "couponhedge": 0.0}[cls]
+                if not near(notl[t], want, want):
+                    fails.append("%s (%s) row %d: notional %r, expected %r" % (n.path, cls, t, notl[t], want))
+                    break
+        elif n.kind == "G":
+            hn = n.vals("hg_notls")
+            for t in range(len(hn)):
+                tot = sum(abs(k.vals("h_notls")[t]) if k.kind == "S" else abs(k.vals("hg_notls")[t]) for k in n.kids
+                          if (k.kind == "G" or k.f.get("priced", ["T"])[0] == "T"))
+                if not near(hn[t], tot, tot):
+                    fails.append("%s row %d: notional %r != sum |child notional| %r" % (n.path, t, hn[t], tot))
+                    break
+    pr, val, fl, nt = root.vals("hg_prices"), root.vals("hg_values"), root.vals("hg_flows"), root.vals("hg_notls")
+    for t in range(1, len(pr)):
+        base = nt[t - 1] if abs(nt[t - 1]) > 1e-16 else nt[t]
+        pnl = val[t] - val[t - 1] - fl[t]
+        if abs(base) < 1e-16:
+            continue
+        want = pr[t - 1] + 100.0 * pnl / base
+        if not near(pr[t], want, want):
+            fails.append("index row %d: %r, expected %r (pnl %r, notional %r)" % (t, pr[t], want, pnl, base))
+            break
+    return fails
